@@ -11,11 +11,11 @@ def check(repo, rep, tier):
                        'an element; only the variable class binds, only when unbound, only to a dereferenced value and '
                        'never to itself; sub-unifications stay open until the yield. Most-generality of the bindings for '
                        'all term pairs is a value-level statement and is NOT decided.')
-    rb.rule_at_most_one_yield(em, rep, 'C02.Y1')
-    rb.rule_arity_guard(em, rep, 'C02.A1')
-    rb.rule_bind_ownership(em, rep, 'C02.B1')
-    rb.rule_manual_advance(em, rep, 'C02.H1')
-    rb.rule_no_exhaust_then_yield(em, rep, 'C02.H1x')
-    rx.rule_no_cached_binding_state(em, rep, 'C02.B6')
+    rep.run(rb.rule_at_most_one_yield, em, rep, 'C02.Y1')
+    rep.run(rb.rule_arity_guard, em, rep, 'C02.A1')
+    rep.run(rb.rule_bind_ownership, em, rep, 'C02.B1')
+    rep.run(rb.rule_manual_advance, em, rep, 'C02.H1')
+    rep.run(rb.rule_no_exhaust_then_yield, em, rep, 'C02.H1x')
+    rep.run(rx.rule_no_cached_binding_state, em, rep, 'C02.B6')
     from .. import rules_state as rs
-    rs.rule_atoms_unify_by_name(em, rep, 'C02.A2')
+    rep.run(rs.rule_atoms_unify_by_name, em, rep, 'C02.A2')
